@@ -52,4 +52,31 @@ def logSoftmax (x : List (Expr N)) : List (Expr N) :=
   let lse := Expr.prim Prim.log (sum (shifted.map (fun e => Expr.prim Prim.exp e)))
   shifted.map (fun e => Expr.sub e lse)
 
+/-! ### array operations of the spline parameterisation (`_real_to_increasing_on_interval`) -/
+
+/-- `jax.nn.softmax(x)` of a 1-d array (`axis=-1, where=None`).  The installed JAX has `jax_softmax_custom_jvp = False`, so
+`softmax` is `jax/_src/nn/functions.py::_softmax_deprecated`, transcribed here:
+`unnormalized = exp(x - stop_gradient(max x)); unnormalized / sum(unnormalized)` -/
+def softmax (x : List (Expr N)) : List (Expr N) :=
+  let xmax : Expr N := Expr.stopGrad (maxE x)
+  let un := x.map (fun e => Expr.prim Prim.exp (Expr.sub e xmax))
+  un.map (fun e => Expr.div e (sum un))
+
+/-- `a.size` of a 1-d array (a static integer, used as a number) -/
+def sizeE (a : List (Expr N)) : Expr N := Expr.const (Num.ofInt (Int.ofNat a.length))
+/-- `a[i]` for a static index `0 ≤ i` -/
+def getAt (a : List (Expr N)) (i : Nat) : Expr N := a.getD i (Expr.const (Num.ofInt 0))
+/-- `a.at[i].set(v)` for a static index `0 ≤ i` (an out-of-range update is dropped, as in JAX) -/
+def setAt (a : List (Expr N)) (i : Nat) (v : Expr N) : List (Expr N) := a.set i v
+
+def cumsumFrom (acc : Expr N) : List (Expr N) → List (Expr N)
+  | [] => []
+  | e :: es => Expr.add acc e :: cumsumFrom (Expr.add acc e) es
+/-- `jnp.cumsum(a)` of a 1-d array: the prefix sums (a linear map; its transpose, the reversed cumulative sum of the
+cotangents, is what adding up the adjoints of the prefix-sum expressions gives) -/
+def cumsum (a : List (Expr N)) : List (Expr N) := cumsumFrom (Expr.const (Num.ofInt 0)) a
+
+/-- `jnp.pad(a, pad_width=1, constant_values=(lo, hi))` of a 1-d array -/
+def pad1 (a : List (Expr N)) (lo hi : Expr N) : List (Expr N) := lo :: (a ++ [hi])
+
 end Ad.Vec
